@@ -43,6 +43,7 @@ const (
 	LHeap1                 // heap[ref]            (struct field, box, ghost)
 	LHeap2                 // heap[arr][idx]       (slice / array element)
 	LStruct                // a struct living at Ref (fields are LHeap1 locations keyed by Ref)
+	LCellPath              // a field (path) inside a non-escaping struct local kept as a value cell
 )
 
 type Loc struct {
@@ -54,6 +55,7 @@ type Loc struct {
 	Ref    Term
 	Idx    Term
 	Typ    types.Type // type of the value stored there
+	Path   []int      // LCellPath: field indices from the local's struct value
 }
 
 // ---- Go type classification -------------------------------------------------
